@@ -13,6 +13,22 @@
 //                (U,V orthogonal, S >= 0 descending, A = U S V^T relative to max|A|); monitored assumption
 //   detU*detV    negative iff the estimator's determinant correction fires on this input (branch coverage)
 // The model driver prints only the part before `|`.
+//
+// Long-lived objects (model: lean/RomeaModel/RegistrationObjects.lean).  Per point type the harness keeps, for the
+// duration of a case, 2 x 4 numbered `PreconditionedPointSet` objects (source / target slots, default constructed at
+// `#case`) and ONE `FindRigidTransformationBySVD` estimator object:
+//   pps.compute  <src|tgt> <slot> <c|h> <scale>                 slot.compute(current raw set of that side, scale)
+//   pps.computeT <src|tgt> <slot> <c|h> <scale> <dim transl.>   slot.compute(current raw set, scale, translation)
+//        -> ok <get().size()> <(dim+1)^2 entries of getPreconditioningMatrix(), row major>
+//   pps.get      <src|tgt> <slot> <c|h> <index>                 -> ok <POINT_SIZE coordinates of get()[index]>
+//   svd.find <c|h> scorr <k> <2k indices> <srcSlot> <tgtSlot>   find(srcSlot object, tgtSlot object, correspondences)
+//   svd.find <c|h> sall  <srcSlot> <tgtSlot>                    find(srcSlot object, tgtSlot object)
+// The probe quantities of a slot find are evaluated on the raw sets that were LAST computed into the two slots (the
+// harness keeps its own copy of them), i.e. on the registration problem the caller posed.  `svd.find C|H ...` (capital
+// letter, any mode) uses the case-long estimator object instead of a fresh one.
+// If the target object handed to the overload without correspondences holds fewer points than the source object, or a
+// correspondence index is not below `get().size()`, the call would read out of bounds: the harness prints
+// `ub-sizes <srcSize> <tgtSize>` instead of making it.
 #include <algorithm>
 #include <vector>
 #include "proto.hpp"
@@ -24,8 +40,11 @@ typedef long double LD;
 
 struct Set { int dim = 0; char kind = 0; std::vector<double> c; size_t n = 0; bool have = false; };
 static Set SRC, TGT;
+static uint64_t GEN = 1;              // bumped at every `#case`: the per-type objects below are rebuilt lazily
 
-static void reset() { SRC = Set(); TGT = Set(); }
+static void reset() { SRC = Set(); TGT = Set(); ++GEN; }
+
+constexpr size_t NSLOTS = 4;
 
 template<class PointType> PointType makePoint(const double * c)
 {
@@ -41,6 +60,33 @@ template<class PointType> PointType makePoint(const double * c)
   } else {
     return PointType(static_cast<S>(c[0]), static_cast<S>(c[1]), static_cast<S>(c[2]));
   }
+}
+
+// the long-lived objects of one point type (side 0 = source slots, side 1 = target slots)
+template<class PointType> struct Objs
+{
+  FindRigidTransformationBySVD<PointType> estimator;
+  PreconditionedPointSet<PointType> slot[2][NSLOTS];
+  Set raw[2][NSLOTS];                // harness bookkeeping: the raw set last computed into the slot
+  uint64_t gen = 0;
+};
+template<class PointType> Objs<PointType> & objs()
+{
+  static Objs<PointType> o;
+  if (o.gen != GEN) { o = Objs<PointType>(); o.gen = GEN; }      // new case: default-constructed objects again
+  return o;
+}
+template<class T> struct Tag { using type = T; };
+template<class F> std::string dispatch(int dim, bool hom, bool dbl, F f)
+{
+  if (dim == 2 && !hom && !dbl) { return f(Tag<Eigen::Vector2f>()); }
+  if (dim == 2 && !hom && dbl) { return f(Tag<Eigen::Vector2d>()); }
+  if (dim == 3 && !hom && !dbl) { return f(Tag<Eigen::Vector3f>()); }
+  if (dim == 3 && !hom && dbl) { return f(Tag<Eigen::Vector3d>()); }
+  if (dim == 2 && hom && !dbl) { return f(Tag<HomogeneousCoordinates2f>()); }
+  if (dim == 2 && hom && dbl) { return f(Tag<HomogeneousCoordinates2d>()); }
+  if (dim == 3 && hom && !dbl) { return f(Tag<HomogeneousCoordinates3f>()); }
+  return f(Tag<HomogeneousCoordinates3d>());
 }
 
 // ---------------------------------------------------------------- long double helpers
@@ -103,14 +149,20 @@ static void referenceMotion(int D, const std::vector<std::vector<LD>> & s, const
 
 static std::string fmtLD(LD x) { return vp::fmtD(static_cast<double>(x)); }
 
-enum Mode { CORR, ALL, PCORR, PALL };
+enum Mode { CORR, ALL, PCORR, PALL, SCORR, SALL };
 
 template<class PointType>
-std::string runFind(Mode mode, const std::vector<std::pair<size_t, size_t>> & corr, double sSd, double sTd)
+std::string runFind(Mode mode, const std::vector<std::pair<size_t, size_t>> & corr, double sSd, double sTd,
+  bool reuseEstimator, size_t slotS, size_t slotT)
 {
   using S = typename PointType::Scalar;
   constexpr int D = PointTraits<PointType>::DIM;
   constexpr int P = PointTraits<PointType>::SIZE;
+  Objs<PointType> & O = objs<PointType>();
+  const bool slots = mode == SCORR || mode == SALL;
+  // the registration problem posed: the current raw sets, or the raw sets last computed into the two slots
+  const Set & SRC = slots ? O.raw[0][slotS] : ::SRC;
+  const Set & TGT = slots ? O.raw[1][slotT] : ::TGT;
   PointSet<PointType> src, tgt;
   for (size_t i = 0; i < SRC.n; ++i) { src.push_back(makePoint<PointType>(&SRC.c[i * D])); }
   for (size_t i = 0; i < TGT.n; ++i) { tgt.push_back(makePoint<PointType>(&TGT.c[i * D])); }
@@ -118,22 +170,35 @@ std::string runFind(Mode mode, const std::vector<std::pair<size_t, size_t>> & co
   for (const auto & c : corr) { cs.emplace_back(c.first, c.second); }
   S sS = static_cast<S>(sSd), sT = static_cast<S>(sTd);
 
-  FindRigidTransformationBySVD<PointType> estimator;
+  FindRigidTransformationBySVD<PointType> freshEstimator;
+  FindRigidTransformationBySVD<PointType> & estimator = reuseEstimator ? O.estimator : freshEstimator;
   Eigen::Matrix<S, D + 1, D + 1> H;
-  PreconditionedPointSet<PointType> psrc, ptgt;
-  if (mode == PCORR || mode == PALL) { psrc.compute(src, sS); ptgt.compute(tgt, sT); }
+  PreconditionedPointSet<PointType> freshSrc, freshTgt;
+  const PreconditionedPointSet<PointType> & psrc = slots ? O.slot[0][slotS] : freshSrc;
+  const PreconditionedPointSet<PointType> & ptgt = slots ? O.slot[1][slotT] : freshTgt;
+  if (mode == PCORR || mode == PALL) { freshSrc.compute(src, sS); freshTgt.compute(tgt, sT); }
+  if (mode == SALL && psrc.get().size() > ptgt.get().size()) {      // estimate_ reads targetPoints[n] for n < sourcePoints.size()
+    return "ub-sizes " + std::to_string(psrc.get().size()) + " " + std::to_string(ptgt.get().size());
+  }
+  if (mode == SCORR) {
+    for (const auto & c : corr) {
+      if (c.first >= psrc.get().size() || c.second >= ptgt.get().size()) {
+        return "ub-sizes " + std::to_string(psrc.get().size()) + " " + std::to_string(ptgt.get().size());
+      }
+    }
+  }
   switch (mode) {
     case CORR: H = estimator.find(src, tgt, cs); break;
     case ALL: H = estimator.find(src, tgt); break;
-    case PCORR: H = estimator.find(psrc, ptgt, cs); break;
-    case PALL: H = estimator.find(psrc, ptgt); break;
+    case PCORR: case SCORR: H = estimator.find(psrc, ptgt, cs); break;
+    case PALL: case SALL: H = estimator.find(psrc, ptgt); break;
   }
   std::string out = "ok";
   for (int i = 0; i <= D; ++i) { for (int j = 0; j <= D; ++j) { out += " " + vp::fmtF(H(i, j)); } }
 
   // ------------------------------------------------------------ probe quantities (long double)
   std::vector<std::pair<size_t, size_t>> pairs = corr;
-  if (mode == ALL || mode == PALL) { pairs.clear(); for (size_t i = 0; i < SRC.n; ++i) { pairs.emplace_back(i, i); } }
+  if (mode == ALL || mode == PALL || mode == SALL) { pairs.clear(); for (size_t i = 0; i < SRC.n; ++i) { pairs.emplace_back(i, i); } }
   LD R[3][3], T[3];
   for (int a = 0; a < D; ++a) { T[a] = H(a, D); for (int b = 0; b < D; ++b) { R[a][b] = H(a, b); } }
   LD ortho = 0;
@@ -174,13 +239,17 @@ std::string runFind(Mode mode, const std::vector<std::pair<size_t, size_t>> & co
   }
 
   // ------------------------------------------------------------ contract of Eigen::JacobiSVD on the estimator's own input
-  const PointSet<PointType> & es = (mode == PCORR || mode == PALL) ? psrc.get() : src;
-  const PointSet<PointType> & et = (mode == PCORR || mode == PALL) ? ptgt.get() : tgt;
+  const bool pre = mode == PCORR || mode == PALL || slots;
+  const PointSet<PointType> & es = pre ? psrc.get() : src;
+  const PointSet<PointType> & et = pre ? ptgt.get() : tgt;
+  // (an object holding fewer points than the problem has pairs: only the pairs it does hold enter the monitored matrix)
+  std::vector<std::pair<size_t, size_t>> held;
+  for (const auto & c : pairs) { if (c.first < es.size() && c.second < et.size()) { held.push_back(c); } }
   PointType smean = PointType::Zero(), tmean = PointType::Zero();
-  for (const auto & c : pairs) { smean += es[c.first]; tmean += et[c.second]; }
-  smean /= S(pairs.size()); tmean /= S(pairs.size());
+  for (const auto & c : held) { smean += es[c.first]; tmean += et[c.second]; }
+  smean /= S(held.size()); tmean /= S(held.size());
   Eigen::Matrix<S, P, P> cov = Eigen::Matrix<S, P, P>::Zero();
-  for (const auto & c : pairs) { cov += (es[c.first] - smean) * (et[c.second] - tmean).transpose(); }
+  for (const auto & c : held) { cov += (es[c.first] - smean) * (et[c.second] - tmean).transpose(); }
   Eigen::Matrix<S, -1, -1> A = cov.block(0, 0, D, D);
   Eigen::JacobiSVD<Eigen::Matrix<S, -1, -1>> svd(A, Eigen::ComputeThinU | Eigen::ComputeThinV);
   Eigen::Matrix<S, -1, -1> U = svd.matrixU(), V = svd.matrixV();
@@ -209,20 +278,72 @@ std::string runFind(Mode mode, const std::vector<std::pair<size_t, size_t>> & co
   return out;
 }
 
-static std::vector<std::pair<size_t, size_t>> parsePairs(const Toks & t, size_t from, size_t k)
+static std::vector<std::pair<size_t, size_t>> parsePairs(const Toks & t, size_t from, size_t k, size_t nS, size_t nT)
 {
   std::vector<std::pair<size_t, size_t>> r;
   for (size_t i = 0; i < k; ++i) {
     size_t a = vp::parseU(t[from + 2 * i]), b = vp::parseU(t[from + 2 * i + 1]);
-    if (a >= SRC.n || b >= TGT.n) { throw vp::BadOp(); }
+    if (a >= nS || b >= nT) { throw vp::BadOp(); }
     r.emplace_back(a, b);
   }
   return r;
 }
 
+// pps.compute / pps.computeT / pps.get on the slot object of one point type
+template<class PointType>
+std::string runObject(const std::string & op, int side, size_t slot, const Set & rawSet, const std::vector<double> & args)
+{
+  using S = typename PointType::Scalar;
+  constexpr int D = PointTraits<PointType>::DIM;
+  constexpr int P = PointTraits<PointType>::SIZE;
+  Objs<PointType> & O = objs<PointType>();
+  PreconditionedPointSet<PointType> & obj = O.slot[side][slot];
+  if (op == "pps.get") {
+    size_t i = static_cast<size_t>(args[0]);
+    if (i >= obj.get().size()) { throw vp::BadOp(); }
+    std::string out = "ok";
+    for (int k = 0; k < P; ++k) { out += " " + vp::fmtF(obj.get()[i](k)); }
+    return out;
+  }
+  PointSet<PointType> pts;
+  for (size_t i = 0; i < rawSet.n; ++i) { pts.push_back(makePoint<PointType>(&rawSet.c[i * D])); }
+  if (op == "pps.compute") {
+    obj.compute(pts, static_cast<S>(args[0]));
+  } else {
+    Eigen::Matrix<S, D, 1> tr;
+    for (int k = 0; k < D; ++k) { tr(k) = static_cast<S>(args[1 + k]); }
+    obj.compute(pts, static_cast<S>(args[0]), tr);
+  }
+  O.raw[side][slot] = rawSet;
+  std::string out = "ok " + std::to_string(obj.get().size());
+  const auto & M = obj.getPreconditioningMatrix();
+  for (int i = 0; i <= D; ++i) { for (int j = 0; j <= D; ++j) { out += " " + vp::fmtF(M(i, j)); } }
+  return out;
+}
+
 static std::string handle(const Toks & t)
 {
   const std::string & op = t[0];
+  if (op == "pps.compute" || op == "pps.computeT" || op == "pps.get") {
+    if (t.size() < 5 || (t[1] != "src" && t[1] != "tgt") || (t[3] != "c" && t[3] != "h")) { throw vp::BadOp(); }
+    int side = t[1] == "src" ? 0 : 1;
+    size_t slot = vp::parseU(t[2]);
+    const Set & rawSet = side == 0 ? SRC : TGT;        // gives the input and the scalar type
+    if (slot >= NSLOTS || !rawSet.have) { throw vp::BadOp(); }
+    std::vector<double> args;
+    if (op == "pps.get") {
+      if (t.size() != 5) { throw vp::BadOp(); }
+      args.push_back(static_cast<double>(vp::parseU(t[4])));
+    } else {
+      if (t.size() != 5 + (op == "pps.computeT" ? static_cast<size_t>(rawSet.dim) : 0)) { throw vp::BadOp(); }
+      for (size_t i = 4; i < t.size(); ++i) {
+        args.push_back(rawSet.kind == 'd' ? vp::parseD(t[i]) : static_cast<double>(vp::parseS(t[i])));
+      }
+    }
+    return dispatch(rawSet.dim, t[3] == "h", rawSet.kind == 'd', [&](auto tag) {
+        return runObject<typename decltype(tag)::type>(op, side, slot, rawSet, args);
+      });
+  }
   if (op == "svd.pts") {
     if (t.size() < 5) { throw vp::BadOp(); }
     if (t[1] != "src" && t[1] != "tgt") { throw vp::BadOp(); }
@@ -237,35 +358,53 @@ static std::string handle(const Toks & t)
     return "ok";
   }
   if (op == "svd.find") {
-    if (t.size() < 3 || (t[1] != "c" && t[1] != "h")) { throw vp::BadOp(); }
+    if (t.size() < 3 || (t[1] != "c" && t[1] != "h" && t[1] != "C" && t[1] != "H")) { throw vp::BadOp(); }
     if (!SRC.have || !TGT.have || SRC.kind != TGT.kind || SRC.dim != TGT.dim) { throw vp::BadOp(); }
-    bool hom = t[1] == "h";
+    bool hom = t[1] == "h" || t[1] == "H";
+    bool reuseEstimator = t[1] == "C" || t[1] == "H";
+    int dim = SRC.dim; bool dbl = SRC.kind == 'd';
+    size_t slotS = 0, slotT = 0;
+    // number of points the two slot objects were last filled with (0: never computed into)
+    auto slotSizes = [&](size_t a, size_t b) {
+        if (a >= NSLOTS || b >= NSLOTS) { throw vp::BadOp(); }
+        slotS = a; slotT = b;
+        size_t nS = 0, nT = 0;
+        dispatch(dim, hom, dbl, [&](auto tag) {
+          auto & O = objs<typename decltype(tag)::type>();
+          nS = O.raw[0][a].n; nT = O.raw[1][b].n;
+          return std::string();
+        });
+        return std::make_pair(nS, nT);
+      };
     Mode mode; std::vector<std::pair<size_t, size_t>> corr; double sS = 1, sT = 1;
     auto scale = [&](const std::string & s) { return SRC.kind == 'd' ? vp::parseD(s) : static_cast<double>(vp::parseS(s)); };
     if (t[2] == "corr" && t.size() >= 4) {
       size_t k = vp::parseU(t[3]);
       if (k == 0 || t.size() != 4 + 2 * k) { throw vp::BadOp(); }
-      mode = CORR; corr = parsePairs(t, 4, k);
+      mode = CORR; corr = parsePairs(t, 4, k, SRC.n, TGT.n);
     } else if (t[2] == "all" && t.size() == 3) {
       if (SRC.n != TGT.n || SRC.n == 0) { throw vp::BadOp(); }
       mode = ALL;
     } else if (t[2] == "pcorr" && t.size() >= 4) {
       size_t k = vp::parseU(t[3]);
       if (k == 0 || t.size() != 4 + 2 * k + 2) { throw vp::BadOp(); }
-      mode = PCORR; corr = parsePairs(t, 4, k); sS = scale(t[4 + 2 * k]); sT = scale(t[5 + 2 * k]);
+      mode = PCORR; corr = parsePairs(t, 4, k, SRC.n, TGT.n); sS = scale(t[4 + 2 * k]); sT = scale(t[5 + 2 * k]);
     } else if (t[2] == "pall" && t.size() == 5) {
       if (SRC.n != TGT.n || SRC.n == 0) { throw vp::BadOp(); }
       mode = PALL; sS = scale(t[3]); sT = scale(t[4]);
+    } else if (t[2] == "scorr" && t.size() >= 4) {
+      size_t k = vp::parseU(t[3]);
+      if (k == 0 || t.size() != 4 + 2 * k + 2) { throw vp::BadOp(); }
+      auto n = slotSizes(vp::parseU(t[4 + 2 * k]), vp::parseU(t[5 + 2 * k]));
+      mode = SCORR; corr = parsePairs(t, 4, k, n.first, n.second);
+    } else if (t[2] == "sall" && t.size() == 5) {
+      auto n = slotSizes(vp::parseU(t[3]), vp::parseU(t[4]));
+      if (n.first != n.second || n.first == 0) { throw vp::BadOp(); }
+      mode = SALL;
     } else { throw vp::BadOp(); }
-    int dim = SRC.dim; bool dbl = SRC.kind == 'd';
-    if (dim == 2 && !hom && !dbl) { return runFind<Eigen::Vector2f>(mode, corr, sS, sT); }
-    if (dim == 2 && !hom && dbl) { return runFind<Eigen::Vector2d>(mode, corr, sS, sT); }
-    if (dim == 3 && !hom && !dbl) { return runFind<Eigen::Vector3f>(mode, corr, sS, sT); }
-    if (dim == 3 && !hom && dbl) { return runFind<Eigen::Vector3d>(mode, corr, sS, sT); }
-    if (dim == 2 && hom && !dbl) { return runFind<HomogeneousCoordinates2f>(mode, corr, sS, sT); }
-    if (dim == 2 && hom && dbl) { return runFind<HomogeneousCoordinates2d>(mode, corr, sS, sT); }
-    if (dim == 3 && hom && !dbl) { return runFind<HomogeneousCoordinates3f>(mode, corr, sS, sT); }
-    return runFind<HomogeneousCoordinates3d>(mode, corr, sS, sT);
+    return dispatch(dim, hom, dbl, [&](auto tag) {
+        return runFind<typename decltype(tag)::type>(mode, corr, sS, sT, reuseEstimator, slotS, slotT);
+      });
   }
   throw vp::BadOp();
 }
